@@ -497,6 +497,7 @@ Lemma exit_refuted_snapshot :
   y_exit snapshot (EMeth (s "log") (s "Default") (s "Fatal")) = HostExit
   /\ y_exit snapshot (EMeth (s "log/slog") (s "NewLogLogger") (s "Fatal")) = HostExit
   /\ y_exit snapshot (EMeth (s "flag") (s "NewFlagSet") (s "Parse")) = HostExit
+  /\ y_exit snapshot (EFunc (s "flag") (s "Parse")) = HostExit
   /\ y_exit snapshot (EMeth (s "log") (s "New") (s "Fatal")) = Recoverable
   /\ y_exit snapshot (EFunc (s "log") (s "Fatal")) = Recoverable.
 Proof. repeat split; vm_compute; reflexivity. Qed.
